@@ -240,7 +240,9 @@ STRINGS = [b"car", b"a b", b"", b"x-1", b"(", b"a,b", b"q?r:s", b"50% off", b"1+
 # regex / format / placeholder look-alikes: the rendered argument must be inserted VERBATIM
 SPECIAL_STRINGS = [b"US$50", b"a$$b", b"cost: $9", b"R$&D", b"$1", b"$2x", b"$&", b"$$", b"$`", b"$'", b"x$", b"$0$11",
                    b"a&b", b"&&&", b"it's", b"'$1'", b"`$&`", b"100%", b"% %", b"%1%", b"%d %s", b"1", b"42",
-                   b"3.5e-1", b"-7", b".^$|()[]{}*+?", b"[a-z]+", b"(x)"]
+                   b"3.5e-1", b"-7", b".^$|()[]{}*+?", b"[a-z]+", b"(x)",
+                   # operator / comment / bracket look-alikes: text passes over the rendering must leave literals alone
+                   b"--", b"a--b---c", b"++", b"- -", b"&&", b"||", b"//", b"/* */", b"((", b"))", b"  ", b" x "]
 # (a backslash or a double quote inside a string constant is the recorded known finding, see quote_cases)
 
 
@@ -509,6 +511,59 @@ class Gen:
                     c.kinds = ["R"] * len(genes)
                     c.vectors = [[bits_of(v) for v in r.sample([0.5, 1.5, -2.25, 3.0, 7.0, 0.125, -1.0, 10.0], n)] for _ in range(2)]
                     out.append(c)
+        return out
+
+    def threshold_cases(self):
+        """inputs exactly AT the constants the conditional templates compare with (and the adjacent doubles):
+        the C text and the interpreter must take the same branch there too.  Variables, so that the values
+        reach the comparison unrounded by printing."""
+        out = []
+        e2 = 0x3CC0000000000000          # 2 * DBL_EPSILON = 2^-51
+        sign = 1 << 63
+        one = bits_of(1.0)
+        near = lambda b: [b - 1, b, b + 1]
+        small = near(e2) + [x | sign for x in near(e2)] + [0, sign, 0x3CB0000000000000, 1, bits_of(1e-300)]
+        specs = []
+        for v in small:
+            specs.append(("real_ifz", [v, bits_of(10.0), bits_of(20.0)]))
+            specs.append(("real_ife", [v, 0, bits_of(10.0), bits_of(20.0)]))
+            specs.append(("real_ife", [0, v, bits_of(10.0), bits_of(20.0)]))
+        # 1 + 2eps, 1 + 4eps, ... against 1 (the difference is exactly 2eps, 4eps)
+        for d in (1, 2, 3, 4, 8, 9, 16):
+            specs.append(("real_ife", [one + d, one, bits_of(10.0), bits_of(20.0)]))
+            specs.append(("real_ife", [one, one + d, bits_of(10.0), bits_of(20.0)]))
+            specs.append(("real_ife", [bits_of(-1.0) + d, bits_of(-1.0), bits_of(10.0), bits_of(20.0)]))
+        for a, b in [(1.0, 1.0), (0.0, -0.0), (-0.0, 0.0), (1.0, 2.0), (2.0, 1.0), (-1.0, -1.0)]:
+            specs.append(("real_ifl", [bits_of(a), bits_of(b), bits_of(10.0), bits_of(20.0)]))
+        specs.append(("real_ifl", [one, one + 1, bits_of(10.0), bits_of(20.0)]))
+        specs.append(("real_ifl", [one + 1, one, bits_of(10.0), bits_of(20.0)]))
+        for x, lo, hi in [(1.0, 1.0, 3.0), (3.0, 1.0, 3.0), (1.0, 3.0, 1.0), (3.0, 3.0, 1.0), (0.0, -0.0, 0.0),
+                          (2.0, 2.0, 2.0), (0.5, 1.0, 3.0), (3.5, 1.0, 3.0)]:
+            specs.append(("real_ifb", [bits_of(x), bits_of(lo), bits_of(hi), bits_of(10.0), bits_of(20.0)]))
+        specs.append(("real_ifb", [one - 1, one, bits_of(3.0), bits_of(10.0), bits_of(20.0)]))
+        specs.append(("real_ifb", [bits_of(3.0) + 1, one, bits_of(3.0), bits_of(10.0), bits_of(20.0)]))
+        for v in [0, sign, 1, sign | 1, bits_of(4.0)]:
+            specs.append(("real_sqrt", [v]))
+        by = {}
+        for ident, vec in specs:
+            by.setdefault((ident, len(vec)), []).append(vec)
+        for (ident, n), vecs in by.items():
+            ps = [x for x in self.cat.functions("R") if x[0] == ident and set(x[1]) == {"R"}]
+            if not ps:
+                continue
+            for i in range(0, len(vecs), 8):
+                c = Case("threshold")
+                cc = c.cat("R")
+                genes = [[c.sym_index(self.function_sym(c, ps[0])), None, []]]
+                for j in range(n):
+                    genes.append([c.sym_index({"k": "V", "name": b"X%d" % (j + 1), "cat": cc}), None, []])
+                    genes[0][2].append(len(genes) - 1)
+                c.genes = [tuple(g) for g in genes]
+                c.kinds = ["R"] * len(genes)
+                c.vectors = vecs[i:i + 8]
+                if len(c.vectors) == 1:
+                    c.vectors = c.vectors * 2
+                out.append(c)
         return out
 
     def pytable_cases(self):
